@@ -85,6 +85,10 @@ class Axis:
             return a[other] == k
         raise AssertionError(kind)
 
+    def asked(self, e, p):
+        """restriction to the part of the data element e is tabulated from: none at respondent level (a respondent is one pattern)"""
+        return True
+
     def valid(self, e, p, other=None):
         """does the respondent have a valid (non-missing) answer on this dimension for element e?"""
         kind, k = self.elems[e]
